@@ -32,3 +32,8 @@ Definition f_is_not (f:form) : bool := match f with FNot _ => true | _ => false 
 Definition f_symbol_name {R L} (f:form) : ctl R L Z := match f with FVar i => Next (Z.of_nat i) | _ => Raise end.
 Definition f_arg0 {R L} (f:form) : ctl R L form :=
   match f with FNot g => Next g | FAnd g _ => Next g | FOr g _ => Next g | _ => Raise end.
+(* s.discard(x), del d[k], w in d *)
+Definition zset_discard (s:list Z) (x:Z) : list Z := filter (fun y => negb (y =? x)%Z) s.
+Fixpoint zdict_del {V} (d:dict Z V) (k:Z) : dict Z V :=
+  match d with [] => [] | (k', v)::r => if (k' =? k)%Z then r else (k', v) :: zdict_del r k end.
+Definition wdict_mem {V} (d:wdict V) (w:world) : bool := match wdict_find d w with Some _ => true | None => false end.
